@@ -92,6 +92,17 @@ class C09(Prop):
                 yield {"kind": "runs2", "programs": [prog_a, [{"name": "g0", "nodes": [dict(na, dataOuts=perm)], "bound": []}]],
                        "values": [["x", rng.randint(0, 5)]], "backend": rng.choice(["mem", "lru2", "disk"]), "runner": rng.choice(["sync", "async"])}
                 continue
+            if 0.19 <= r < 0.23:
+                # a cacheable interrupt: paused, resumed with a human's answer, then run again WITHOUT an answer (and with another answer)
+                x = rng.randint(0, 3)
+                prog = [{"name": "g0", "nodes": [
+                    {"name": "mk", "kind": "fn", "params": [["x", None]], "dataOuts": ["draft"], "body": {"b": "sum", "k": 1}, "cache": rng.random() < 0.5},
+                    {"name": "ask", "kind": "interrupt", "params": [["draft", None]], "dataOuts": ["decision"], "body": {"b": "handler", "k": rng.choice([None, None, 2])}, "cache": True},
+                    {"name": "fin", "kind": "fn", "params": [["decision", None]], "dataOuts": ["fin"], "body": {"b": "tag", "t": "fin"}, "cache": rng.random() < 0.5}], "bound": []}]
+                seqs = [{"values": [["x", x]], "runner": "async"}, {"values": [["x", x], ["decision", 40]], "runner": "async"},
+                        {"values": [["x", x]], "runner": "async"}, {"values": [["x", x], ["decision", 41]], "runner": "async"}, {"values": [["x", x]], "runner": "async"}]
+                yield {"kind": "runs", "program": prog, "runs": seqs[: rng.randint(3, 5)], "backend": rng.choice(["mem", "lru2", "disk"])}
+                continue
             if r < 0.19 and r >= 0.14:
                 # one gate function behind two route gates that differ ONLY by their fallback, sharing a cache
                 gate = {"name": "gt", "kind": "route", "params": [["x", None]], "targets": ["ta", "tb"], "fallback": "ta", "multiTarget": False, "defaultOpen": rng.random() < 0.5,
@@ -329,7 +340,9 @@ class C09(Prop):
         if (case["backend"] == "mem" or case.get("check_reinvoke")) and not shared_fn:
             # retained forever: a cacheable node's function runs at most once per distinct arguments over the whole sequence
             seen: dict[str, int] = {}
-            cacheable = {f"{gi}:{n['name']}" for gi, g in enumerate(case["program"]) for n in g["nodes"] if n.get("cache")}
+            # (an interrupt handler that returns None pauses: nothing was completed, nothing is retained, it is asked again next run)
+            cacheable = {f"{gi}:{n['name']}" for gi, g in enumerate(case["program"]) for n in g["nodes"]
+                         if n.get("cache") and not (n["kind"] == "interrupt" and n["body"].get("k") is None)}
             for r in obs["runs"]:
                 for f, kw in r["got_calls"]:
                     if f in cacheable:
